@@ -101,23 +101,31 @@ def job_tests(first):
     for num in (1, 2, 3):
         for rest in itertools.product(TEST_OPTS, repeat=num - 1):
             combo = (first,) + rest
-            case = {'family': 'tests', 'results per task (None = no result key)': combo}
-            _, res = kit.build_stats_tests(combo)
-            exp_ok = sorted(f'test{k}_{j}' for k, v in enumerate(combo) if v for j, x in enumerate(v) if x)
-            exp_ko = sorted(f'test{k}_{j}' for k, v in enumerate(combo) if v for j, x in enumerate(v) if not x)
-            exp_miss = sorted(f'task{k}' for k, v in enumerate(combo) if v is None)
-            mixed = bool(exp_ok) + bool(exp_ko) + bool(exp_miss) > 1
-            rep.case(nontrivial=combo if mixed else None, outcome=('tests', bool(res)))
-            for outcome, exp in ((TestOutcome.SUCCESS, exp_ok), (TestOutcome.FAILURE, exp_ko), (TestOutcome.MISSING, exp_miss),
-                                 (TestOutcome.NOT_A_TEST, [])):
-                got = names(res.classify.get(outcome, []))
-                if got != exp:
-                    rep.violate(f'C18|tests|classify|{outcome.name}', f'{outcome.name}: {got}, expected {exp}', case, size=num)
-            nobs = len(exp_ok) + len(exp_ko) + len(exp_miss)
-            if nobs == 0:
-                rep.counters['empty_summary_not_judged'] += 1
-            elif bool(res) != (not exp_ko and not exp_miss):
-                rep.violate('C18|tests|verdict', f'verdict {bool(res)}: successes {exp_ok}, failures {exp_ko}, missing {exp_miss}', case, size=num)
+            # repeated names: the same comparison evaluated by several tasks (possibly under different labels) is still one
+            # entry per evaluated result
+            for naming in ('distinct', 'same', 'same-labelled'):
+                case = {'family': 'tests', 'results per task (None = no result key)': combo, 'naming': naming}
+                _, res = kit.build_stats_tests(combo, naming=naming)
+
+                def tname(k, j, naming=naming):
+                    return f'test{k}_{j}' if naming == 'distinct' else 'test'
+                exp_ok = sorted(tname(k, j) for k, v in enumerate(combo) if v for j, x in enumerate(v) if x)
+                exp_ko = sorted(tname(k, j) for k, v in enumerate(combo) if v for j, x in enumerate(v) if not x)
+                exp_miss = sorted(f'task{k}' for k, v in enumerate(combo) if v is None)
+                mixed = bool(exp_ok) + bool(exp_ko) + bool(exp_miss) > 1
+                rep.case(nontrivial=(combo, naming) if mixed else None, outcome=('tests', naming, bool(res)))
+                ntag = '' if naming == 'distinct' else f'|names={naming}'
+                for outcome, exp in ((TestOutcome.SUCCESS, exp_ok), (TestOutcome.FAILURE, exp_ko), (TestOutcome.MISSING, exp_miss),
+                                     (TestOutcome.NOT_A_TEST, [])):
+                    got = names(res.classify.get(outcome, []))
+                    if got != exp:
+                        rep.violate(f'C18|tests|classify|{outcome.name}{ntag}', f'{outcome.name}: {got}, expected {exp}', case, size=num)
+                nobs = len(exp_ok) + len(exp_ko) + len(exp_miss)
+                if nobs == 0:
+                    rep.counters['empty_summary_not_judged'] += 1
+                elif bool(res) != (not exp_ko and not exp_miss):
+                    rep.violate(f'C18|tests|verdict{ntag}', f'verdict {bool(res)}: successes {exp_ok}, failures {exp_ko}, missing {exp_miss}',
+                                case, size=num)
     rep.sample({'family': 'tests', 'results per task': (first, (True, False))})
     return rep
 
